@@ -354,11 +354,34 @@ func extractFields(ctx *Context, structType reflect.Type, indexPath []int, field
 		}
 	}
 
+	if len(indexPath) == 0 {
+		fields = removeShadowedFields(fields)
+	}
+
 	sort.SliceStable(fields, func(i, j int) bool {
 		return fields[i].Order < fields[j].Order
 	})
 
 	return fields
+}
+
+// A field of an embedded struct is hidden by a field of the same name that is
+// declared at a shallower depth (as in Go itself); without this the map would
+// be written with the same key twice.
+func removeShadowedFields(fields []structField) []structField {
+	shallowestDepth := make(map[string]int)
+	for _, field := range fields {
+		if depth, exists := shallowestDepth[field.Name]; !exists || len(field.IndexPath) < depth {
+			shallowestDepth[field.Name] = len(field.IndexPath)
+		}
+	}
+	kept := make([]structField, 0, len(fields))
+	for _, field := range fields {
+		if len(field.IndexPath) == shallowestDepth[field.Name] {
+			kept = append(kept, field)
+		}
+	}
+	return kept
 }
 
 func shouldIncludeField(field structField, value reflect.Value, defaultOmitBehavior configuration.FieldOmitBehavior) bool {
